@@ -42,8 +42,13 @@ def gen_sequence(rng, root):
             # a file of the package whose name is not valid UTF-8 (percent-encoded bytes): a document like any other
             Doc("f5", "file://" + root + "/src/%FF%C3%28.gleam"),
             # a module deep below directories with long non-ASCII names (each component well under 255 bytes, the whole path over 1 KiB)
-            Doc("f6", "file://" + root + "/src/" + "/".join(("模块目录名称很长" * 4) + str(i) for i in range(11)) + "/深.gleam")]
-    client = {}          # uri key -> editor text (only while every edit so far was valid); None = unknown to the oracle
+            Doc("f6", "file://" + root + "/src/" + "/".join(("模块目录名称很长" * 4) + str(i) for i in range(11)) + "/深.gleam"),
+            # a file of the package that comes and goes on disk and is never opened by the editor
+            Doc("f8", "file://" + root + "/src/c.gleam")]
+    client = {}
+    disk = dict(DISK)    # what the package's files hold on disk (key -> text, None = gone)
+    disk["f8"] = None
+    pkg_loaded = [False]    # the package's files have been read into the store (first contact with the package)          # uri key -> editor text (only while every edit so far was valid); None = unknown to the oracle
     seq = []
     rid = 100
     n = rng.randrange(4, 12)
@@ -99,11 +104,53 @@ def gen_sequence(rng, root):
                 seq.append(("xnotif", d, m, json.loads(json.dumps(params).replace("%URI%", d.uri))))
             else:
                 events = []
+                touched = set()
                 for _e in range(rng.randrange(1, 4)):
-                    t = rng.randrange(6)
+                    t = rng.randrange(8)
                     typ = rng.choice([1, 2, 3])
+                    if t >= 6:
+                        # a file of the package the editor does not hold open (closed again, or never opened): rewritten on
+                        # disk, deleted, or merely announced; what the server holds afterwards is what is on disk - or nothing
+                        cand = [dd for dd in docs[:2] if not is_open.get(dd.key) and dd.key not in touched]
+                        if cand:
+                            dd = rng.choice(cand)
+                            touched.add(dd.key)
+                            act = rng.choice(["write", "delete", "none"])
+                            txt = rand_text(rng)
+                            events.append((act, dd.uri, typ, txt))
+                            if act == "write":
+                                disk[dd.key] = txt
+                            elif act == "delete":
+                                disk[dd.key] = None
+                            if not pkg_loaded[0]:
+                                client[dd.key] = None        # the package gets loaded later: left to the model
+                            elif typ == 3 or disk[dd.key] is None:
+                                client[dd.key] = "VANISHED"
+                            elif p_text.wf_crlf(disk[dd.key]):
+                                client[dd.key] = disk[dd.key]
+                            else:
+                                client[dd.key] = None
+                        continue
                     if t == 0:
-                        events.append((rng.choice(["write", "delete", "none"]), "file://" + root + "/src/c.gleam", typ, rand_text(rng)))
+                        if "f8" in touched:
+                            continue
+                        touched.add("f8")
+                        act, txt = rng.choice(["write", "delete", "none"]), rand_text(rng)
+                        events.append((act, "file://" + root + "/src/c.gleam", typ, txt))
+                        if act == "write":
+                            disk["f8"] = txt
+                        elif act == "delete":
+                            disk["f8"] = None
+                        if not is_open.get("f8"):
+                            # the editor does not hold it open: the server follows the disk
+                            if not pkg_loaded[0]:
+                                client["f8"] = None
+                            elif typ == 3 or disk["f8"] is None:
+                                client["f8"] = "VANISHED"
+                            elif p_text.wf_crlf(disk["f8"]):
+                                client["f8"] = disk["f8"]
+                            else:
+                                client["f8"] = None
                     elif t == 1:
                         events.append(("none", "file://" + root + "/src/ghost.gleam", typ, ""))
                     elif t == 2:
@@ -112,11 +159,13 @@ def gen_sequence(rng, root):
                         events.append(("none", rng.choice(docs[3:4] + docs[5:7]).uri, typ, ""))
                     else:
                         # a document the editor holds open: events about its file are not the server's business
-                        held = [dd for dd in docs if is_open.get(dd.key) and isinstance(client.get(dd.key), str) and client.get(dd.key) != "FORGOTTEN"]
+                        held = [dd for dd in docs if is_open.get(dd.key) and isinstance(client.get(dd.key), str) and client.get(dd.key) not in ("FORGOTTEN", "VANISHED")]
                         if held:
                             events.append(("none", rng.choice(held).uri, typ, ""))
                 if events:
                     seq.append(("watch", d, events))
+                    if any(u.startswith("file://") and ty in (1, 2) and (u.endswith("/gleam.toml") or u.endswith(".gleam")) for (_a, u, ty, _t) in events):
+                        pkg_loaded[0] = pkg_loaded[0] or None    # perhaps: unknown from here on for the editor-side oracle of vanished files
             continue
         k = rng.randrange(10)
         d = rng.choice(docs[:4] + docs[5:]) if rng.random() < 0.85 else docs[4]
@@ -126,17 +175,19 @@ def gen_sequence(rng, root):
             t = rand_text(rng)
             seq.append(("open", d, t))
             is_open[d.key] = True
+            if d.key in ("f1", "f2", "f5", "f6", "f8"):
+                pkg_loaded[0] = True
             if not d.key.startswith("o"):
                 client[d.key] = t
             continue
         if k < 6:
             # most edits go to a document the editor holds open and knows the text of
-            known = [dd for dd in docs if is_open.get(dd.key) and isinstance(client.get(dd.key), str) and client.get(dd.key) != "FORGOTTEN"]
+            known = [dd for dd in docs if is_open.get(dd.key) and isinstance(client.get(dd.key), str) and client.get(dd.key) not in ("FORGOTTEN", "VANISHED")]
             if known and rng.random() < 0.6:
                 d = rng.choice(known)
             changes = []
             cur = client.get(d.key)
-            was_forgotten = cur == "FORGOTTEN"
+            was_forgotten = cur if cur in ("FORGOTTEN", "VANISHED") else False
             if was_forgotten:
                 cur = None
             for _c in range(rng.randrange(1, 4)):
@@ -223,7 +274,7 @@ def gen_sequence(rng, root):
                             cur = new if p_text.wf_crlf(new) else None
             seq.append(("change", d, changes))
             if was_forgotten:
-                client[d.key] = "FORGOTTEN"     # the server ignores changes to a document it has forgotten
+                client[d.key] = was_forgotten     # the server ignores changes to a document it has forgotten
             elif d.key in client:
                 if any(c[2] not in ("valid", "full", "col-beyond") for c in changes) or cur is None:
                     client[d.key] = None if cur is None and all(c[2] in ("valid", "full", "col-beyond") for c in changes) else "FORGOTTEN"
@@ -247,17 +298,31 @@ def gen_sequence(rng, root):
 DISK = {"f1": "fn disk_a() { 1 }\n", "f2": "fn disk_b() { 2 }\n"}
 
 
-def encode_for_model(seq):
+def encode_for_model(seq, docs=None):
+    """the session as the model sees it: messages, file events with the state of the file on disk when the server
+    handles them, and the loading of the package's files at the first contact with the package"""
     out = []
     loaded = False
-    c_exists = False
+    keyof = {}
+    for op in seq:
+        if len(op) > 1 and isinstance(op[1], Doc):
+            keyof[op[1].uri] = op[1].key
+    for d in (docs or []):
+        keyof[d.uri] = d.key
+    disk = {"f1": DISK["f1"], "f2": DISK["f2"], "f8": None}     # files of the package under src/
+
+    def load():
+        # every .gleam file of the package that is on disk is read into the store (not opened)
+        for k in ("f1", "f2", "f8"):
+            if disk[k] is not None:
+                out.append(f"load:{k}:{hexs(disk[k])}")
+
     for op in seq:
         if op[0] == "open":
-            if (op[1].key in DISK or op[1].key in ("f5", "f6")) and not loaded:
+            if (op[1].key in ("f1", "f2", "f5", "f6", "f8")) and not loaded:
                 # the first didOpen of a file of the package loads every file of the package from disk
                 loaded = True
-                for k, t in DISK.items():
-                    out.append(f"open:{k}:{hexs(t)}")
+                load()
             out.append(f"open:{op[1].key}:{hexs(op[2])}")
         elif op[0] == "change":
             cs = []
@@ -268,17 +333,30 @@ def encode_for_model(seq):
         elif op[0] == "close":
             out.append(f"close:{op[1].key}")
         elif op[0] == "watch":
-            # no document the model tracks is named by an event, but the first CREATED/CHANGED event about an existing
-            # regular file of the package loads the package from disk, like the first didOpen does
+            # the harness changes the disk for all events of a notification first, then sends it
             for (act, uri, typ, text) in op[2]:
-                if uri.endswith("/src/c.gleam") and act != "none":
-                    c_exists = act == "write"
+                k = keyof.get(uri) or ("f8" if uri.endswith("/src/c.gleam") else None)
+                if k in disk and act != "none":
+                    disk[k] = text if act == "write" else None
             for (act, uri, typ, text) in op[2]:
-                exists = (uri.endswith("/src/c.gleam") and c_exists) or uri.endswith("/gleam.toml")
-                if uri.startswith("file://") and typ in (1, 2) and exists and not loaded:
+                k = keyof.get(uri) or ("f8" if uri.endswith("/src/c.gleam") else None)
+                if not uri.startswith("file://"):
+                    continue                                  # not a file: skipped by the server
+                if k in disk:
+                    st = "A" if disk[k] is None else "R" + hexs(disk[k])
+                elif uri.endswith("/gleam.toml"):
+                    st, k = "R" + hexs('name = "p"\n'), "f90"
+                elif uri.endswith("/src/ghost.gleam"):
+                    st, k = "A", "f91"
+                elif k is not None:
+                    st = "A"                                  # a document whose file was never written (free-standing, deep, odd names)
+                else:
+                    continue                                  # directories: not readable as a file, ignored
+                # the first CREATED/CHANGED event about an existing regular file of the package loads the package, like the first didOpen
+                if typ in (1, 2) and st.startswith("R") and not loaded and k in ("f1", "f2", "f8", "f90"):
                     loaded = True
-                    for k, t in DISK.items():
-                        out.append(f"open:{k}:{hexs(t)}")
+                    load()
+                out.append(f"watch:{k}:{1 if typ == 3 else 0}:{st}")
         elif op[0] in ("xreq", "xnotif"):
             continue        # no effect on the documents the model tracks; oracle on the implementation only
         else:
@@ -382,7 +460,7 @@ def run_c15(res, tier, seed):
         observations = common.parallel_map(lambda j: run_sequence(j[0], j[1], j[2]), jobs, workers=min(common.NCPU, 12))
     finally:
         shutil.rmtree(base, ignore_errors=True)
-    mreqs = ["server\t" + encode_for_model(j[2]) for j in jobs]
+    mreqs = ["server\t" + encode_for_model(j[2], j[1]) for j in jobs]
     mo, rc = common.run_lines(common.DRIVER_BIN, mreqs)
     if len(mo) != len(mreqs):
         raise Broken("Lean driver died", "on server sequences")
@@ -401,7 +479,7 @@ def run_c15(res, tier, seed):
         nchg = sum(1 for op in seq if op[0] == "change")
         if nchg >= 2 and any(op[0] == "req" for op in seq):
             distinct += 1
-        replay = {"sequence": [describe(op) for op in seq], "model_request": encode_for_model(seq), "observation": {k: v for k, v in obs.items() if k != "texts"},
+        replay = {"sequence": [describe(op) for op in seq], "model_request": encode_for_model(seq, docs), "observation": {k: v for k, v in obs.items() if k != "texts"},
                   "texts": obs.get("texts")}
         if not obs["alive"]:
             op = seq[obs["died_at"]] if isinstance(obs["died_at"], int) else None
@@ -419,6 +497,9 @@ def run_c15(res, tier, seed):
             if text == "FORGOTTEN":
                 if got is not None:
                     res.add_violation("C15/unappliable-edit-not-dropped", f"after an edit that cannot be applied the server still holds {got!r} for {key}", replay)
+            elif text == "VANISHED":
+                if got is not None:
+                    res.add_violation("C15/vanished-file-not-forgotten", f"the file of {key} vanished from disk (the editor did not hold it open) and the server still holds {got!r} for it", replay)
             elif text is not None:
                 exp = p_text.strip_cr(text)
                 if got != exp:
@@ -431,20 +512,20 @@ def run_c15(res, tier, seed):
                 k, h = kv.split("=")
                 mtexts[k] = common.unhexs(h)
         if "CRASH" in outs:
-            res.disagreements.append((encode_for_model(seq)[:200], "alive", "model predicts a crash"))
+            res.disagreements.append((encode_for_model(seq, docs)[:200], "alive", "model predicts a crash"))
             continue
         for d in docs:
             if d.key.startswith("f"):
                 got = obs["texts"].get(d.key)
                 if got != mtexts.get(d.key):
-                    res.disagreements.append((encode_for_model(seq)[:300], f"{d.key}={got!r}", f"{d.key}={mtexts.get(d.key)!r}"))
+                    res.disagreements.append((encode_for_model(seq, docs)[:300], f"{d.key}={got!r}", f"{d.key}={mtexts.get(d.key)!r}"))
                     break
         mresp = dict(x[1:].split("=") for x in outs.split(" ") if x.startswith("r"))
         for rid, v in obs["responses"].items():
             # the model only predicts errors caused by the document store / position conversion
             if mresp.get(str(rid)) == "err" and v == "ok":
                 # a request on an unknown document or beyond the document answered ok?
-                res.disagreements.append((encode_for_model(seq)[:300], f"r{rid}=ok", f"r{rid}=err"))
+                res.disagreements.append((encode_for_model(seq, docs)[:300], f"r{rid}=ok", f"r{rid}=err"))
     res.cov["distinct_nontrivial"] = distinct
     res.cov["message_distribution"] = kinds
     res.cov["rule"] = (f"{n_seq} seeded message sequences (4-11 messages) over 5 documents (two files of a package, a free-standing file, an "
@@ -454,6 +535,59 @@ def run_c15(res, tier, seed):
                        "didChangeWatchedFiles (a package file rewritten or deleted on disk, a missing file, directories, non-file URIs, files the editor holds open); a liveness probe after every message; final text of every document read back "
                        "through glas/syntaxTree. non-trivial = at least two didChange and one request")
     res.cov["samples"] += [{"sequence": [describe(op) for op in jobs[i][2]][:6], "model": mo[i][:200]} for i in (0, 1)]
+
+
+def run_vanish_sessions(res, tier, seed):
+    """a document is edited, closed, and its file vanishes from disk (the editor tells the server by
+    didChangeWatchedFiles); then the editor - or a plugin with a stale buffer - sends another change for it, with no
+    other document touched in between, and (in half of the sessions) opens a file the server has never seen.  The server
+    stays alive, answers everything, and the new document holds exactly the text it was opened with (oracle only)"""
+    lsp.build_glas()
+    n = 16 if tier == "quick" else 300
+    base = os.path.join(common.ROOT, "work", f"c15v-{os.getpid()}")
+    shutil.rmtree(base, ignore_errors=True)
+    jobs = []
+    for i in range(n):
+        rng = random.Random(seed * 7919 + i)
+        root = os.path.join(base, f"v{i}")
+        docs = gen_sequence(random.Random(1), root)[0]
+        fresh = Doc("f7", "file://" + root + "/src/fresh.gleam")
+        docs = docs + [fresh]
+        a = docs[rng.randrange(2)]                  # a.gleam or b.gleam: files of the package, present on disk
+        ta = "pub fn " + rand_text(rng, 3).replace("\r", "").replace("\n", " ") + "\nfn second() { 2 }\n"
+        tb = "pub fn fresh_one() { \"" + rng.choice(["x", "é", "💣"]) + "\" }\nfn more() { 3 }\n"
+        seq = [("open", a, ta), ("change", a, [((0, 0, 0, 0), "// edited\n", "valid")])]
+        if rng.random() < 0.5:
+            seq.append(("req", a, "textDocument/hover", 1, 4, 900 + i))
+        seq.append(("close", a))
+        seq.append(("watch", a, [("delete", a.uri, rng.choice([3, 2]), "")]))
+        want_fresh = i % 2 == 0
+        later = [("change", a, [((0, 0, 0, rng.choice([0, 3, 6])), rng.choice(["", "zz", "fn "]), "valid")])]
+        if want_fresh:
+            later.insert(rng.randrange(2), ("open", fresh, tb))
+            later.append(("change", a, [((1, 0, 1, 2), "", "valid")]))
+            later.append(("req", fresh, "textDocument/hover", 0, 8, 950 + i))
+        seq += later
+        jobs.append((root, docs, seq, {"f7": tb} if want_fresh else {}))
+    try:
+        observations = common.parallel_map(lambda j: run_sequence(j[0], j[1], j[2]), jobs, workers=min(common.NCPU, 8))
+    finally:
+        shutil.rmtree(base, ignore_errors=True)
+    res.cov["vanish_sessions"] = n
+    for (root, docs, seq, client), obs in zip(jobs, observations):
+        res.cov["evaluations"] += len(seq)
+        replay = {"sequence": [describe(op) for op in seq], "observation": {k: v for k, v in obs.items() if k != "texts"}, "texts": obs.get("texts")}
+        if not obs["alive"]:
+            res.add_violation("C15/server-died/change-after-file-vanished", f"the server process ended after message {obs['died_at']} of a session in which a closed "
+                              f"document's file vanished and another change for it arrived: {obs.get('stderr', '')[-200:]}", replay)
+            continue
+        for rid, v in obs["responses"].items():
+            if v is None:
+                res.add_violation("C15/request-unanswered", f"request {rid} got no response", replay)
+        for key, text in client.items():
+            got = obs["texts"].get(key)
+            if got != p_text.strip_cr(text):
+                res.add_violation("C15/text-diverged", f"server text {got!r} != editor text {p_text.strip_cr(text)!r} for {key} (a document opened after another one's file vanished)", replay)
 
 
 def run_request_burst(res, tier, seed):
@@ -602,6 +736,7 @@ def run(prop, res, tier, seed):
         res.add_broken(b.what, b.detail)
     run_c15(res, tier, seed)
     run_request_burst(res, tier, seed)
+    run_vanish_sessions(res, tier, seed)
     if res.disagreements:
         rq, a, b = res.disagreements[0]
         res.add_broken("correspondence model-vs-implementation (M-server vs the real binary)",
